@@ -339,9 +339,23 @@ fn cli_leg(rep: &mut Report, bases: &[Base]) {
         let mut ext2 = right.clone();
         ext2.extend_from_slice(&[0xde, 0xad]);
         values.push(("right-plus-two-bytes".into(), ext2, false));
-        for (name, val, must_proceed) in values {
+        let seedp = dir.path().join("seed-all.bin");
+        std::fs::write(&seedp, &base.source).unwrap();
+        for (vi, (name, val, must_proceed)) in values.into_iter().enumerate() {
             let _ = std::fs::remove_file(&out);
-            let r = cli_clone(&rt, cli_clone_args(apath.to_str().unwrap(), &out, &["--verify-header".to_string(), hex(&val)]));
+            // the pin must hold whatever else is going on: alternately with a seed that supplies every
+            // chunk (nothing is fetched) and in place over an output that already is the source
+            let mut args = vec!["--verify-header".to_string(), hex(&val)];
+            match vi % 3 {
+                1 => args.extend(["--seed".to_string(), seedp.to_str().unwrap().to_string()]),
+                2 => {
+                    std::fs::write(&out, &base.source).unwrap();
+                    args.push("--seed-output".to_string());
+                }
+                _ => {}
+            }
+            let preexisting = vi % 3 == 2;
+            let r = cli_clone(&rt, cli_clone_args(apath.to_str().unwrap(), &out, &args));
             agg.add("verify_header_cases", 1);
             let proceeded = matches!(r, Ok(Ok(())));
             let detail = || json!({"leg": "cli-verify-header", "base": bases[bi].name, "value_class": name, "value": hex(&val), "archive_header_checksum": hex(&right), "result": format!("{:?}", r)});
@@ -353,7 +367,7 @@ fn cli_leg(rep: &mut Report, bases: &[Base]) {
             } else if proceeded && std::fs::read(&out).unwrap_or_default() != base.source {
                 agg.viol("success-with-wrong-output", detail);
             }
-            if !proceeded && !must_proceed && out.exists() {
+            if !proceeded && !must_proceed && out.exists() && !preexisting {
                 agg.viol("verify-header-mismatch-created-output", detail);
             }
         }
@@ -426,7 +440,7 @@ pub fn run(rep: &mut Report) {
     rep.set("evaluations", json!(ev));
     rep.set("distinct_nontrivial", json!(rep.agg.distinct_count("errors") + rep.agg.distinct_count("server_cases")));
     rep.set("exhaustive", json!(true));
-    rep.set("rule", json!("for each small base archive (hash length >= 8; raw and compressed; duplicate chunk): every single-bit flip, every truncation length, every 1-byte (and every 3rd / every 2-byte) overwrite with {00, ff, xor 55} at every offset, every pair of chunk payloads swapped, 1 and 64 bytes of trailing garbage, each x {no seed, seed = source, unrelated seed, in place over a prior output with the source's halves exchanged} x {plain, verify-output} through the library flow, and a 1-in-7 (thorough 1-in-2) slice through the real clone_cmd on files; --verify-header: right value, each of its 512 single-bit flips, another 64-byte value, every proper prefix length 0..63, value + 1 and + 2 bytes; misbehaving server: 11 fault kinds at every request position x {plain, verify-output, seeded} through the real clone_cmd over loopback HTTP; oracle: failure or exactly the original source, header changes rejected at open, clone proceeds iff the pinned header checksum equals the archive's; non-trivial = distinct error messages + distinct server cases"));
+    rep.set("rule", json!("for each small base archive (hash length >= 8; raw and compressed; duplicate chunk): every single-bit flip, every truncation length, every 1-byte (and every 3rd / every 2-byte) overwrite with {00, ff, xor 55} at every offset, every pair of chunk payloads swapped, 1 and 64 bytes of trailing garbage, each x {no seed, seed = source, unrelated seed, in place over a prior output with the source's halves exchanged} x {plain, verify-output} through the library flow, and a 1-in-7 (thorough 1-in-2) slice through the real clone_cmd on files; --verify-header: right value, each of its 512 single-bit flips, another 64-byte value, every proper prefix length 0..63, value + 1 and + 2 bytes, each alternately plain / with a seed that supplies every chunk / in place over an output that already is the source; misbehaving server: 11 fault kinds at every request position x {plain, verify-output, seeded} through the real clone_cmd over loopback HTTP; oracle: failure or exactly the original source, header changes rejected at open, clone proceeds iff the pinned header checksum equals the archive's; non-trivial = distinct error messages + distinct server cases"));
     rep.assume("hash length >= 8 as the property states; a panic counts as failure here (C15 judges crashes)");
 }
 
